@@ -242,7 +242,7 @@ def run(ctx):
     # success() / non_error() / equal() accept (0, 10, 5, 6) - a refusal must never read as success
     import props.C19 as c19
     wrong, n_ev = [], 0
-    vecs = c19.int_vectors() + [b'\x01\x00\x00\x00\x00', b'\x01\x00\x00\x00\x0a', b'\x01' + b'\x00' * 8, b'\x80' + b'\x00' * 8, b'\x01' + b'\x00' * 7 + b'\x05', b'\xff' * 9, b'\x02' + b'\x00' * 11 + b'\x06']
+    vecs = c19.int_vectors() + [b'', b'\x01\x00\x00\x00\x00', b'\x01\x00\x00\x00\x0a', b'\x01' + b'\x00' * 8, b'\x80' + b'\x00' * 8, b'\x01' + b'\x00' * 7 + b'\x05', b'\xff' * 9, b'\x02' + b'\x00' * 11 + b'\x06']
     for octets in sorted(set(vecs), key=lambda x: (len(x), x)):
         v = int.from_bytes(octets, 'big')
         def content(I, cal, args, node, st, octets=octets):
@@ -260,6 +260,14 @@ def run(ctx):
             refusal = got[0] == 'lit' and got[1] not in (0, 5, 6, 10)
             # more than eight content octets is not a minimal encoding of anything the field can hold: exact, or a refusal
             padded_ok = len(octets) > 8 and (got == ('lit', v) or (refusal and v not in (0, 5, 6, 10)))
+            if not octets:
+                # no content octets: the element denotes no number at all (X.690 8.4 / 8.3.1: at least one) - whatever the caller is
+                # handed, it must not be a code the helpers accept
+                if not refusal:
+                    w = ('(empty)', absx.fmt(got)[:24], 'no code at all')
+                    if w not in wrong:
+                        wrong.append(w)
+                continue
             if not padded_ok and ((fits and got != ('lit', v)) or (not fits and not refusal)):
                 w = (octets.hex() or '(empty)', absx.fmt(got)[:24], v if fits else 'does not fit u32')
                 if w not in wrong:
